@@ -23,7 +23,7 @@ THEOREMS = ['C08_volume_str_counts', 'C08_write_wf', 'C08_prune_preserves_wf',
             'C08_remove_empty_volumes_ok', 'C08_geomcomp_partition',
             'C08_wf_fileb_ok', 'C08_wf_stateb_sound',
             'C08_none_operand_refuted', 'C08_helper_plane_refuted',
-            'C08_leading_zero_refuted', 'C08_bc_unwritten_surface_refuted']
+            'C08_leading_zero_refuted', 'C08_bc_defined']
 TRUSTED = [
     'hand-written model coq/C08/Model.v (modelled, tied by execution only)',
     'numeric fields: str(float) / numpy rendering of surface parameters and '
@@ -134,15 +134,6 @@ m1 1001 1.0
 
 m1 1001 1.0
 ''', []),
-    'bc_unwritten_surface': ('''flagged surface that no written volume uses
-1 1 -1.0 -1 imp:n=1
-2 0 1 imp:n=0
-
-1 so 2
-*5 py 7
-
-m1 1001 1.0
-''', []),
 }
 
 
@@ -182,15 +173,6 @@ def classify(problem, conv, cap, rd, args):
             fixed = 'm' + m.group(2) + (m.group(3) or '')
             if fixed in [n for n, _, _ in rd.comps]:
                 return 'material_leading_zero'
-        return None
-    if clause == 'bc-ref' and cap is not None:
-        m = re.search(r'SURF (\d+) ', msg)
-        if m:
-            sid = int(m.group(1))
-            used = {s for v in rd.volumes.values()
-                    for s in v['plus'] + v['minus']}
-            if sid in [k for k, _ in cap.bcs] and sid not in used:
-                return 'bc_unwritten_surface'
         return None
     return None
 
@@ -276,6 +258,10 @@ def run(res, tier, seed, proofs_ok):
             args = list(opts) + largs
             conv, cap = cap_mod.convert(deck_text, args)
             res.count('run:' + ('ok' if conv.ok else 'raises:' + conv.exc))
+            if conv.text is not None and 'BOUNDARY_CONDITION' in conv.text:
+                res.count('file:with-boundary-conditions')
+            if conv.exc == 'ValueError' and 'conflicting boundary' in conv.msg:
+                res.count('run:conflicting-boundary-conditions')
             res.seen((deck_text, args), nontrivial=conv.text is not None)
             verdict = sweep_one(res, deck_text, args, conv, cap, 'generated')
             if verdict is not None:
